@@ -133,15 +133,20 @@ theorem calculate_min (A : SecArith R) (fuel : Nat) (hw : R) (conv : Bool) (recs
 
 /-- the skill part of `Gradual.taikoOneShot` with the concrete skills = the pipeline's one-shot -/
 theorem taikoOneShot_concrete (A : SecArith R) (fuel : Nat) (hw : R) (hits : List Bool) (recs : List (TObj R))
-    (hlen : recs.length = hits.length - 2) (h2 : 2 ≤ hits.length) (take : Nat) :
+    (hlen : recs.length = hits.length - 2) (take : Nat) :
     ((taikoOneShot (concreteSkills5 A fuel hw false recs) hits take).1,
         combine5 (taikoOneShot (concreteSkills5 A fuel hw false recs) hits take).2)
       = oneShotSkills A fuel hw hits recs take := by
   unfold taikoOneShot oneShotSkills taikoCreate
-  have hlt : ¬ hits.length < 2 := by omega
-  simp only [hlt, if_false]
-  congr 1
-  rw [← hlen, processedPrefix_five A fuel hw false recs _ (Nat.min_le_right _ _), calculate_min]
+  by_cases hlt : hits.length < 2
+  · have h0 : recs.length = 0 := by omega
+    simp only [hlt, if_true]
+    congr 1
+    have : (0 : Nat) = recs.length := h0.symm
+    rw [this, processedPrefix_five A fuel hw false recs _ (Nat.min_le_right _ _), calculate_min]
+  · simp only [hlt, if_false]
+    congr 1
+    rw [← hlen, processedPrefix_five A fuel hw false recs _ (Nat.min_le_right _ _), calculate_min]
 
 /-- an answer of the pipeline is an answer of `TaikoSkill.calculate` on some records -/
 theorem taikoSkillsOfBytes_ok (O : TOps R) (A : SecArith R) (fuel : Nat) (bytes : List UInt8) (mods : Nat)
